@@ -183,10 +183,25 @@ func corpus() []Scenario {
 	r = append(r, Scenario{"corpus:claimed-close-await-probe", onePlan(3), cat(toWait,
 		Decision{T: "res", M: id, V: 787}, until("n0", "rpc.handler.claimed"), Decision{T: "fclose"}, step("x0"), until("c0", "rpc.do.await"),
 		Decision{T: "probe", A: "c0"}, fin("c0"), fin("n0"), fin("c0")), 1})
+	// fault sequences on retransmissions: the first send succeeds, the k-th retransmission fails (k = 1, 2, 3);
+	// the timer keeps firing: attempts stay <= 1 + MaxRetries and the failed send ends the call
+	for k := 1; k <= 3; k++ {
+		sends := []int{SendOk}
+		for j := 1; j < k; j++ {
+			sends = append(sends, SendOk)
+		}
+		sends = append(sends, SendFail, SendFail, SendOk, SendFail, SendOk, SendOk, SendOk)
+		var ds []Decision
+		ds = append(ds, Decision{T: "call", C: 0}, until("c0", "rpc.retry.select"))
+		for j := 0; j < 9; j++ {
+			ds = append(ds, Decision{T: "fire", C: 0}, step("c0"), until("c0", "rpc.retry.select"))
+		}
+		r = append(r, Scenario{fmt.Sprintf("corpus:retransmission-%d-fails", k), onePlan(3, sends...), ds, 1})
+	}
 	// retransmission twice in a row: the timer must be pending again after each retransmission
 	r = append(r, Scenario{"corpus:two-retransmissions", onePlan(3),
-		[]Decision{{T: "call", C: 0}, until("c0", "rpc.retry.select"), {T: "fire", C: 0}, until("c0", "rpc.retry.select"), {T: "fire", C: 0},
-			until("c0", "rpc.retry.select"), {T: "fire", C: 0}, fin("c0")}, 1})
+		[]Decision{{T: "call", C: 0}, until("c0", "rpc.retry.select"), {T: "fire", C: 0}, step("c0"), until("c0", "rpc.retry.select"), {T: "fire", C: 0},
+			step("c0"), until("c0", "rpc.retry.select"), {T: "fire", C: 0}, fin("c0")}, 1})
 	// C26: graceful Close with a pending call: Close returns only after the call returned; a later Do is rejected
 	r = append(r, Scenario{"corpus:graceful-close-waits", Plan{MaxRetries: 3, Calls: []CallPlan{{ID: 1001, Seq: 3, Body: 77}, {ID: 1002, Seq: 5, Body: 78}}},
 		[]Decision{{T: "call", C: 0}, until("c0", "rpc.retry.select"), {T: "close"}, step("x0"), {T: "res", M: 1001, V: 9}, fin("n0"), fin("c0"),
@@ -214,9 +229,11 @@ func baselines() []Scenario {
 			{T: "res", M: id, V: 5}, fin("n0"), fin("c0")}, 0},
 		{"result-no-ack", p1(3), []Decision{{T: "call", C: 0}, until("c0", "rpc.retry.select"), {T: "res", M: id, V: 6}, fin("n0"), fin("c0")}, 0},
 		{"error-no-ack", p1(3), []Decision{{T: "call", C: 0}, until("c0", "rpc.retry.select"), {T: "err", M: id, Code: 420}, fin("n0"), fin("c0")}, 0},
-		{"retry-limit", p1(2), []Decision{{T: "call", C: 0}, until("c0", "rpc.retry.select"), {T: "fire", C: 0}, until("c0", "rpc.retry.select"), {T: "fire", C: 0}, fin("c0")}, 0},
-		{"retry-then-ack", p1(3), []Decision{{T: "call", C: 0}, until("c0", "rpc.retry.select"), {T: "fire", C: 0}, until("c0", "rpc.retry.select"),
+		{"retry-limit", p1(2), []Decision{{T: "call", C: 0}, until("c0", "rpc.retry.select"), {T: "fire", C: 0}, step("c0"), until("c0", "rpc.retry.select"), {T: "fire", C: 0}, fin("c0")}, 0},
+		{"retry-then-ack", p1(3), []Decision{{T: "call", C: 0}, until("c0", "rpc.retry.select"), {T: "fire", C: 0}, step("c0"), until("c0", "rpc.retry.select"),
 			{T: "acks", IDs: []int64{id}}, until("c0", "rpc.do.wait"), {T: "res", M: id, V: 7}, fin("n0"), fin("c0")}, 0},
+		{"second-resend-fails", p1(3, SendOk, SendOk, SendFail, SendFail), []Decision{{T: "call", C: 0}, until("c0", "rpc.retry.select"), {T: "fire", C: 0},
+			step("c0"), until("c0", "rpc.retry.select"), {T: "fire", C: 0}, step("c0"), until("c0", "rpc.retry.select"), {T: "fire", C: 0}, fin("c0")}, 0},
 		{"resend-fails", p1(3, SendOk, SendFail), []Decision{{T: "call", C: 0}, until("c0", "rpc.retry.select"), {T: "fire", C: 0}, fin("c0")}, 0},
 		{"two-calls-crossed", p2, []Decision{{T: "call", C: 0}, {T: "call", C: 1}, until("c0", "rpc.retry.select"), until("c1", "rpc.retry.select"),
 			{T: "acks", IDs: []int64{id2, id}}, {T: "res", M: id2, V: 22}, {T: "res", M: id, V: 11}, fin("n1"), fin("n0"), fin("c0"), fin("c1")}, 0},
